@@ -1,18 +1,23 @@
 (* Correspondence + property predicate for C20 *)
-From Fnd Require Export Base.Prelude Model.Paging Proofs.PagingProofs.
+From Fnd Require Export Base.Prelude Model.Paging Proofs.PagingProofs Model.Paths.
 
 (* ledger entries: key bytes, and the id bytes of the record stored there ([] for keys that
    are not origin-side transfer records) *)
 Inductive qobs := QErr (e : qerr) | QOk (ids : list (list N)) (next : list N) | QOther.
 
-Record case := mkCase {
-  c_ledger : list (list N * list N);          (* whole ledger in key order *)
-  c_queries : list (Z * list N);              (* page size, bookmark *)
-  o_queries : list qobs;
-  c_walks : list Z;                           (* page sizes walked from the empty bookmark *)
-  o_walks : list (option (list (list N)));    (* ids collected over the whole walk *)
-  c_existing : list (list N)                  (* ids for which channelTransferFrom finds a record *)
-}.
+Inductive case :=
+| mkCase
+    (c_ledger : list (list N * list N))          (* whole ledger in key order *)
+    (c_queries : list (Z * list N))              (* page size, bookmark *)
+    (o_queries : list qobs)
+    (c_walks : list Z)                           (* page sizes walked from the empty bookmark *)
+    (o_walks : list (option (list (list N))))    (* ids collected over the whole walk *)
+    (c_existing : list (list N))                 (* ids for which channelTransferFrom finds a record *)
+| mkPath                                         (* one id through core/cctransfer/paths.go *)
+    (p_id : list N)
+    (o_from o_to o_base : list N)                (* CCFromTransfer(id), CCToTransfer(id), Base(CCFromTransfer(id)) *)
+    (o_valid : bool)                             (* IsValidID(id) *)
+    (o_created : bool).                          (* channelTransferByCustomer under this id created a record *)
 
 Global Instance qerr_eq_dec : EqDecision qerr.
 Proof. solve_decision. Defined.
@@ -31,8 +36,14 @@ Definition m_walk (l : list (list N * list N)) (size : Z) : option (list (list N
   end.
 
 Definition corr (c : case) : bool :=
-  bool_decide (List.map (m_query (c_ledger c)) (c_queries c) = o_queries c) &&
-  bool_decide (List.map (m_walk (c_ledger c)) (c_walks c) = o_walks c).
+  match c with
+  | mkCase c_ledger c_queries o_queries c_walks o_walks _ =>
+    bool_decide (List.map (m_query c_ledger) c_queries = o_queries) &&
+    bool_decide (List.map (m_walk c_ledger) c_walks = o_walks)
+  | mkPath id o_from o_to o_base o_valid _ =>
+    bool_decide (from_key id = o_from) && bool_decide (to_key id = o_to) && bool_decide (base (from_key id) = o_base) &&
+    Bool.eqb (is_valid_id id) o_valid
+  end.
 
 (* the property on the implementation's outputs: every walk with page size >= 1 yields every
    existing record exactly once and in key order, and only such records *)
@@ -47,17 +58,29 @@ Definition same_set (a b : list (list N)) : bool :=
   forallb (fun x => existsb (fun y => bool_decide (x = y)) a) b.
 
 Definition holds (c : case) : bool :=
+  match c with
+  | mkCase _ c_queries o_queries c_walks o_walks c_existing =>
   forallb (fun p => match snd p with
-                    | Some ids => if (1 <=? fst p)%Z then sorted_ids ids && same_set ids (c_existing c) else true
+                    | Some ids => if (1 <=? fst p)%Z then sorted_ids ids && same_set ids c_existing else true
                     | None => negb (1 <=? fst p)%Z
-                    end) (combine (c_walks c) (o_walks c)) &&
+                    end) (combine c_walks o_walks) &&
   forallb (fun p => match fst p, snd p with
                     | (size, bm), QErr QPageSize => (size <=? 0)%Z
                     | (size, bm), QErr QBookmark => negb (has_prefix pfx bm)
                     | (size, bm), QOk _ _ => (0 <? size)%Z && (match bm with [] => true | _ => has_prefix pfx bm end)
                     | _, QOther => false
-                    end) (combine (c_queries c) (o_queries c)).
+                    end) (combine c_queries o_queries)
+  | mkPath id o_from o_to _ o_valid o_created =>
+    (* a record is created only under an id the library calls valid, and then its key is prefix ++ id: a key of the
+       listing, not a key of the destination side *)
+    if o_created then o_valid && bool_decide (o_from = pfx ++ id) && has_prefix pfx o_from && negb (has_prefix pfx o_to)
+    else true
+  end.
 
 Definition label (c : case) : N :=
+  match c with
+  | mkCase _ _ o_queries _ _ c_existing =>
   fold_right (fun o acc => N.lor acc match o with QErr QPageSize => 1 | QErr QBookmark => 2 | QOk _ [] => 4 | QOk _ _ => 8 | QOther => 16 end%N)
-             (if (3 <=? length (c_existing c))%nat then 32%N else 0%N) (o_queries c).
+             (if (3 <=? length c_existing)%nat then 32%N else 0%N) o_queries
+  | mkPath _ _ _ _ o_valid o_created => (64 + (if o_valid then 128 else 0) + (if o_created then 256 else 0))%N
+  end.
